@@ -6,7 +6,7 @@
     ([vm_compute]) on the tables gocc actually emitted for each grammar of the run, which
     instantiates the theorems to gocc's own output, for all token sequences. *)
 From Coq Require Import List Arith ZArith Lia Bool.
-From Gocc Require Import LR.Parse LR.Validate LR.Trees LR.Eval LR.Sound LR.SoundTop LR.Complete.
+From Gocc Require Import LR.Parse LR.Validate LR.Trees LR.Eval LR.Sound LR.SoundTop LR.Complete LR.Exact LR.ErrorPos.
 Import ListNotations.
 
 (** [input] is a sentence: a parse tree of the start symbol (the single body symbol of
@@ -49,9 +49,18 @@ Proof.
 Qed.
 Print Assumptions C02_no_panic.
 
-(** Termination on sentences: explicit bound above. Termination on NON-sentences is proved in
-    LR/ErrorPos.v when available (it needs the canonical-LR(1) item-validity argument); until
-    then this half is covered by the correspondence check only (named partial in the evidence). *)
+(** Parse terminates on every token sequence: sentences within tree size + 1 steps (above); in general
+    for tables that additionally pass the canonicity checks [x_checks] (exact nullable/FIRST, justified
+    closure items, reachable nonterminals productive — grammars whose reachable part is unproductive have
+    no sentences at all and are covered by the correspondence run only). *)
+Theorem C02_parse_terminates : forall g tb an sem,
+  lr_valid g tb an = true -> x_checks g tb an = true ->
+  (forall i p kids, sem i p kids <> None) ->
+  forall pr0 X0, nth_error g 0 = Some pr0 -> rhs pr0 = [X0] ->
+  forall input, Forall (fun t => ttype t <> EOFT) input ->
+  exists fuel0, forall fuel, fuel0 <= fuel -> r_out (parse tb sem input fuel) <> PFuel.
+Proof. exact C02_terminates. Qed.
+Print Assumptions C02_parse_terminates.
 
 (** Non-vacuity: S' -> S ; S -> a S | b   with hand-made canonical tables; "a a b" is accepted. *)
 Definition ex_g : grammar :=
